@@ -1,7 +1,10 @@
 (* Lsm/VlogSpec.v — statements about the value-log machine of Lsm/Vlog.v (property C11).
    Proved in Vlog_proofs.v; restated in Props/C11.v.  Every statement quantifies over ALL operation
    sequences the machine accepts from the empty store (any length, any interleaving of flushes,
-   compactions, reopens, readers and reads), any checksum function, any configuration. *)
+   compactions, reopens, readers and reads), any checksum function, any configuration, either form of the
+   run-time clean-up rule (chk) and of the block-cache rule of VLog::get (hck) unless said otherwise.
+   Part D (property C16) quantifies over histories with DAMAGE as well: the directory replaced by anything at
+   any point, reads through any pointer. *)
 From Coq Require Import List NArith Arith Bool.
 From SKV Require Import Params Codec.VlogParams Codec.Wal Codec.VlogPtr Lsm.Vlog.
 Import ListNotations.
@@ -11,8 +14,9 @@ Section VlogSpec.
 Variable crc : list byte -> N.
 Variable cfg : vcfg.
 Variable chk : bool.      (* the run-time clean-up call sites test for registered readers (Vlog.v vs_cleanup_rt) *)
+Variable hck : bool.      (* VLog::get serves a block-cache hit only when checksum and length equal the pointer's (Vlog.v vs_get) *)
 
-Definition reachable (st : vstate) : Prop := exists ops, vs_run crc cfg chk ops vs0 = Some st.
+Definition reachable (st : vstate) : Prop := exists ops, vs_run crc cfg chk hck ops vs0 = Some st.
 
 (* B0. a flush records, entry by entry and in order, the keys and user values of the memtable it was given
    (the ghost field te_orig is what the theorems below compare reads with) *)
@@ -27,9 +31,9 @@ Definition live_values_intact_stmt : Prop :=
   vlog_params_ok = true ->
   forall st, reachable st ->
     (forall t e v, In t (vs_tables st) -> In e (tb_entries t) -> te_orig e = Some v ->
-                   fst (vs_resolve crc cfg st (te_enc e)) = Some v) /\
+                   fst (vs_resolve crc cfg hck st (te_enc e)) = Some v) /\
     (forall e v, In e (vs_index st) -> te_orig e = Some v ->
-                 fst (vs_resolve crc cfg st (te_enc e)) = Some v).
+                 fst (vs_resolve crc cfg hck st (te_enc e)) = Some v).
 
 (* B2. the clean-up rule by itself, on ANY state: a file that a live table points into survives, provided
    the table's recorded oldest id is what TableWriter computes and no pointer names the `no reference` id;
@@ -63,7 +67,7 @@ Definition files_synced_stmt : Prop :=
 Definition ids_never_reused_stmt : Prop :=
   vlog_params_ok = true ->
   forall ops1 ops2 st1 st2,
-    vs_run crc cfg chk ops1 vs0 = Some st1 -> vs_run crc cfg chk ops2 st1 = Some st2 ->
+    vs_run crc cfg chk hck ops1 vs0 = Some st1 -> vs_run crc cfg chk hck ops2 st1 = Some st2 ->
     vs_next st1 <= vs_next st2 /\
     forall f, In f (vs_files st2) -> (exists f1, In f1 (vs_files st1) /\ vf_id f1 = vf_id f) \/ vs_next st1 <= vf_id f.
 
@@ -76,24 +80,87 @@ Definition old_reader_never_wrong_stmt : Prop :=
   vlog_params_ok = true ->
   forall st, reachable st ->
     forall rid ts t e v, In (rid, ts) (vs_readers st) -> In t ts -> In e (tb_entries t) -> te_orig e = Some v ->
-      fst (vs_resolve crc cfg st (te_enc e)) = Some v \/ fst (vs_resolve crc cfg st (te_enc e)) = None.
+      fst (vs_resolve crc cfg hck st (te_enc e)) = Some v \/ fst (vs_resolve crc cfg hck st (te_enc e)) = None.
 Definition old_reader_safe_stmt : Prop :=
   forall st, reachable st ->
     forall rid ts t e v, In (rid, ts) (vs_readers st) -> In t ts -> In e (tb_entries t) -> te_orig e = Some v ->
-      fst (vs_resolve crc cfg st (te_enc e)) = Some v.
+      fst (vs_resolve crc cfg hck st (te_enc e)) = Some v.
+
+(* B5. the block cache stays effective under the checked rule: in every reachable state (no damage) a cached entry found
+   for the pointer of a live table entry or index entry passes the test of vs_get — the second read of a live value is a
+   hit, not a file read *)
+Definition live_hits_pass_stmt : Prop :=
+  vlog_params_ok = true ->
+  forall st, reachable st ->
+    forall e p c, ((exists t, In t (vs_tables st) /\ In e (tb_entries t)) \/ In e (vs_index st)) ->
+                  te_orig e <> None -> vloc_pointer_of (te_enc e) = Some p ->
+                  vcache_get (vs_cache st) (vpt_file p) (vpt_offset p) = Some c -> vs_hit_ok hck p c = true.
+
+(* ---------------------------------------------------------------------------------------------------------
+   D. damage (property C16; finding F41).  dreachable: any sequence of machine operations, replacements of the directory
+   by ANY files and writer ids (a file cut short and appended to again from the cut position is one such history), and
+   reads through ANY pointer (e.g. one stored in a table written before the damage).  No invariant survives such
+   histories except what vs_get itself establishes about the cache. *)
+Definition dreachable (st : vstate) : Prop := exists ds, ds_run crc cfg chk hck ds vs0 = Some st.
+
+(* D1. Full verification, checked cache rule: whatever happened to the files, a read that answers a value answers one that
+   passes THIS pointer's own test — its length is the pointer's value size and, with some key, its checksum is the
+   pointer's checksum.  A cache hit therefore never returns what the file path (Codec/VlogPtr.v vlog_read at level Full)
+   would have refused for this pointer on account of the value length or the checksum *)
+Definition get_passes_pointer_check (p : vpointer) (v : list byte) : Prop :=
+  nlen v = vpt_vsize p /\ exists k, crc32u crc (k ++ v) = vpt_crc p.
+Definition damaged_get_checked_stmt : Prop :=
+  cf_level cfg = VLOG_CK_FULL ->
+  forall st, dreachable st -> forall p v, fst (vs_get crc cfg hck st p) = Some v -> get_passes_pointer_check p v.
+(* ... through a stored value as well (an entry of any table, of the index, of a reader's table set, or any bytes) *)
+Definition damaged_resolve_checked_stmt : Prop :=
+  cf_level cfg = VLOG_CK_FULL ->
+  forall st, dreachable st -> forall enc p v, vloc_pointer_of enc = Some p ->
+    fst (vs_resolve crc cfg hck st enc) = Some v -> get_passes_pointer_check p v.
+
+(* D2. the same in terms of what was WRITTEN: a pointer issued for (k0, v0) — value size and checksum as
+   VLogWriter::append computes them — read in any damaged state gives v0, or an error, or exhibits a checksum collision:
+   another value of the same length that, with some key, has the checksum of k0 ++ v0.  Never silently the value of
+   another entry (which is what finding F41 was) *)
+Definition issued_for (p : vpointer) (k0 v0 : list byte) : Prop :=
+  vpt_vsize p = nlen v0 /\ vpt_crc p = crc32u crc (k0 ++ v0).
+Definition collision_with (k0 v0 v : list byte) : Prop :=
+  v <> v0 /\ nlen v = nlen v0 /\ exists k, crc32u crc (k ++ v) = crc32u crc (k0 ++ v0).
+Definition damaged_get_written_or_collision_stmt : Prop :=
+  cf_level cfg = VLOG_CK_FULL ->
+  forall st, dreachable st -> forall p k0 v0, issued_for p k0 v0 ->
+    fst (vs_get crc cfg hck st p) = Some v0 \/ fst (vs_get crc cfg hck st p) = None \/
+    exists v, fst (vs_get crc cfg hck st p) = Some v /\ collision_with k0 v0 v.
+(* (a hypothesis `no value of this length collides under any key` would be unsatisfiable — keys are unbounded, checksums
+   have 32 bits — so the collision is the third alternative of the conclusion, naming the colliding value, rather than a
+   hypothesis; Codec/RegionsSpec.v vlog_full_detected_stmt states it for the one altered entry in the same way) *)
 End VlogSpec.
 
 (* every value — separated or inline — of every table set an open reader holds resolves to the bytes that were flushed, in
    every reachable state of the machine run with the GENERATED rule *)
 Definition old_reader_served_stmt : Prop :=
   vlog_params_ok = true ->
-  forall crc cfg, old_reader_safe_stmt crc cfg VLOG_CLEANUP_CHECKS_READERS.
+  forall crc cfg hck, old_reader_safe_stmt crc cfg VLOG_CLEANUP_CHECKS_READERS hck.
 (* the rule before the repair: some checksum function, configuration and accepted run leave an open reader with an entry
    that no longer resolves *)
 Definition old_reader_unprotected_without_check_stmt : Prop :=
-  exists crc cfg, ~ old_reader_safe_stmt crc cfg false.
+  exists crc cfg, forall hck, ~ old_reader_safe_stmt crc cfg false hck.
 (* nothing leaks: the deferred clean-up is the ordinary one as soon as no reader is registered; and it is only deferred *)
 Definition cleanup_runs_without_readers_stmt : Prop :=
   forall chk st, vs_readers st = [] -> vs_cleanup_rt chk st = vs_cleanup st.
 Definition cleanup_deferred_with_readers_stmt : Prop :=
   forall st, vs_readers st <> [] -> vs_cleanup_rt true st = st.
+
+(* D for the GENERATED cache rule (VLOG_CACHE_HIT_CHECKED = true in the repaired tree): any checksum function, any
+   configuration with Full verification, either clean-up rule *)
+Definition damaged_reads_checked_stmt : Prop :=
+  forall crc cfg chk,
+    damaged_get_checked_stmt crc cfg chk VLOG_CACHE_HIT_CHECKED /\
+    damaged_resolve_checked_stmt crc cfg chk VLOG_CACHE_HIT_CHECKED /\
+    damaged_get_written_or_collision_stmt crc cfg chk VLOG_CACHE_HIT_CHECKED.
+(* the code before the repair (any hit is served): for some checksum function and some configuration with Full
+   verification, a history — flush, the file cut at the first entry, reopen, flush, read the new entry, read the old
+   pointer — answers the OTHER key's value, of the same length, which is NOT a collision: under no key does it have the
+   old pointer's checksum (regression record of finding F41) *)
+Definition cache_unchecked_serves_other_entry_stmt : Prop :=
+  exists crc cfg, cf_level cfg = VLOG_CK_FULL /\ forall chk, ~ damaged_get_written_or_collision_stmt crc cfg chk false.
